@@ -68,6 +68,12 @@ func entry(b *strings.Builder, e *yang.Entry, ind string, pos bool) {
 	if pos {
 		src = " src=" + yang.Source(e.Node)
 	}
+	if e.Kind == yang.InputEntry || e.Kind == yang.OutputEntry {
+		// where the node says it stands (its parent chain): the input and output of an rpc
+		// or action hang off the RPC field, not off a child map, so only this shows whether
+		// a copy points back at its own rpc
+		src += " path=" + e.Path()
+	}
 	fmt.Fprintf(b, "%s%s kind=%v key=%q cfg=%v ro=%v mand=%v def=%q defvals=%q units=%q ns=%q im=%s%s pfx=%s desc=%q%s exts=%s augmented=%d augments=%d%s\n", ind, e.Name, e.Kind, e.Key, e.Config, e.ReadOnly(), e.Mandatory, e.Default, e.DefaultValues(), e.Units, e.Namespace().Name, im, ime, pfx, e.Description, la, extArgs(e), len(e.Augmented), len(e.Augments), src)
 	// the extra keywords kept on the entry (if-feature, must, when, status, reference, ...)
 	var xs []string
